@@ -3,21 +3,27 @@
 (mutsweep/survivors.json: id -> reason why the mutant is equivalent / outside every
 property's domain) and print the summary used in DESIGN.md section 8 (d).
 
-usage: tools/mutsweep_report.py <shard.jsonl>... ; writes mutsweep/results.jsonl
+usage: tools/mutsweep_report.py [--grammar] <shard.jsonl>... ; writes mutsweep/results.jsonl
+(--grammar: mutants_grammar.jsonl / survivors_grammar.json / results_grammar.jsonl)
 """
 import json, sys, collections, os
 
 here = os.path.join(os.path.dirname(os.path.abspath(__file__)), "..", "mutsweep")
-valid = {json.loads(l)["id"] for l in open(os.path.join(here, "mutants.jsonl"))}
-notes = json.load(open(os.path.join(here, "survivors.json"))) if os.path.exists(os.path.join(here, "survivors.json")) else {}
+sfx = ""
+if "--grammar" in sys.argv:
+    sys.argv.remove("--grammar")
+    sfx = "_grammar"
+MUT, NOTES, RES = f"mutants{sfx}.jsonl", f"survivors{sfx}.json", f"results{sfx}.jsonl"
+valid = {json.loads(l)["id"] for l in open(os.path.join(here, MUT))}
+notes = json.load(open(os.path.join(here, NOTES))) if os.path.exists(os.path.join(here, NOTES)) else {}
 rs = {}
 for f in sys.argv[1:]:
     for l in open(f):
         r = json.loads(l)
         if r["id"] in valid:
             rs[r["id"]] = r
-order = [json.loads(l)["id"] for l in open(os.path.join(here, "mutants.jsonl"))]
-with open(os.path.join(here, "results.jsonl"), "w") as out:
+order = [json.loads(l)["id"] for l in open(os.path.join(here, MUT))]
+with open(os.path.join(here, RES), "w") as out:
     for i in order:
         if i in rs:
             r = rs[i]
